@@ -269,7 +269,10 @@ int main(int argc, char** argv) {
                     for (int s = 0; s < shots + (reanalyse ? 1 : 0); ++s) {
                         if (reanalyse && s == shots)
                             an->analyse(*program);   // analysing an already analysed and executed tree must change nothing
-                        events.clear();
+                        {
+                            std::lock_guard<std::mutex> lk(evMutex);
+                            events.clear();
+                        }
                         runtime::verif::gc().counter = 0;
                         cap.out.str("");
                         std::string shot = "{";
@@ -289,7 +292,10 @@ int main(int argc, char** argv) {
                                 sl = e.line;
                                 sc = e.column;
                             }
-                            nEvents = events.size();  // teardown events are not part of the run
+                            {
+                                std::lock_guard<std::mutex> lk(evMutex);   // the timer thread may still be emitting
+                                nEvents = events.size();  // teardown events are not part of the run
+                            }
                             stmtCount = runtime::verif::gc().counter;
                             shot += "\"status\":\"" + sstatus + "\"";
                             shot += ",\"echo\":" + jsonLines(cap.out.str());
